@@ -19,6 +19,20 @@ def gen(tier, rng):
             out.append(("PKCE %s %s" % (m, C.tb(s)), "non-ascii-byte-length"))
         for s in [" " + "a" * 43, "a" * 43 + "\n", "\t" + "b" * 50 + "\r\n", " " * 43, "a" * 20 + "  " + "b" * 30, "\u00a0" + "c" * 45 + "\u2003", "d" * 127 + " "]:
             out.append(("PKCE %s %s" % (m, C.tb(s)), "whitespace-verifier"))
+    # literals that are new in the source (gen/srclit.py): words inside verifiers of legal length (start, middle, end), integers
+    # as verifier lengths and as byte counts
+    from gen import srclit as SL
+    for m in ("s256", "plain"):
+        for w in SL.words():
+            wl = len(w.encode())
+            for L in (43, 64, 128):
+                if wl <= L:
+                    pad = "a" * (L - wl)
+                    for s in (w + pad, pad + w, pad[: len(pad) // 2] + w + pad[len(pad) // 2:]):
+                        out.append(("PKCE %s %s" % (m, C.tb(s)), "source-literal/word"))
+        for k in SL.sizes(limit=300000, lo=0):
+            out.append(("PKCE %s %s" % (m, C.tb("a" * k)), "source-literal/length"))
+            out.append(("PKCE %s %s" % (m, C.tb("\u00e9" * (k // 2) + "a" * (k % 2))), "source-literal/length"))
     n = 1500 if tier == "quick" else 100000
     pool = ["\x00", " ", "&", "=", "%", "+", "é", "日", "\n", "#"]
     for _ in range(n):
@@ -35,7 +49,7 @@ def gen(tier, rng):
     # byte counts: 0..=200, and large values whose low 8 / 16 bits fall inside 32..=96 (a count narrowed to a smaller
     # integer type would be accepted)
     wrap = [b + o for b in (256, 512, 1024, 65536, 131072, 2 ** 24, 2 ** 31, 2 ** 32 - 256, 2 ** 32 - 65536) for o in (0, 31, 32, 43, 64, 96, 97) if b + o < 2 ** 32]
-    for k in list(range(0, 201)) + [255, 256, 65535, 65536, 4294967295] + wrap:
+    for k in list(range(0, 201)) + [255, 256, 65535, 65536, 4294967295] + wrap + [k for k in SL.sizes(limit=2 ** 32 - 1, lo=201)]:
         reps = 1 if (k < 32 or k > 96) else (3 if tier == "quick" else 40)
         for r in range(reps):
             out.append(("PKCERAND %d" % k if r == 0 else "PKCERAND %d" % k + "", "rand-sweep"))
